@@ -59,6 +59,7 @@ type c05Delete struct {
 }
 type c05Finalize struct{ idx uint64 }
 type c05AdvanceTo struct{ t time.Time }
+type c05Restart struct{}
 type c05Role struct {
 	role string
 	to   string
@@ -143,6 +144,7 @@ func (y *c05Sys) Letters(s *c05State) []engine.Letter {
 	for _, t := range ts {
 		ls = append(ls, engine.Letter{Name: fmt.Sprintf("AdvanceTo(genesis+%dns)", t.Sub(world.L1GenesisTime).Nanoseconds()), Data: c05AdvanceTo{t}})
 	}
+	ls = append(ls, engine.Letter{Name: "RestartViaGenesis", Data: c05Restart{}})
 	return ls
 }
 
@@ -206,6 +208,11 @@ func (y *c05Sys) apply(s, c *c05State, l engine.Letter, fpar []bool) (string, *e
 	switch d := l.Data.(type) {
 	case c05AdvanceTo:
 		c.ctx = ctx.WithBlockHeight(ctx.BlockHeight() + 1).WithBlockTime(d.t)
+		return "ok", nil
+	case c05Restart:
+		if err := s.w.RestartViaGenesis(ctx); err != nil {
+			return "error", viol("finality-survives-a-restart", "export / validate / import of the module genesis failed: %v", err)
+		}
 		return "ok", nil
 	case c05Propose:
 		res := s.w.Deliver(ctx, ophosttypes.NewMsgProposeOutput(world.Addr(s.proposer).String(), 1, next, uint64(ctx.BlockHeight())*10+next, y.tree.OutputRoot[:]))
